@@ -803,6 +803,19 @@ class VecTr(Tr):
             return self.expr(node.orelse, env)
         return None
 
+    def block(self, stmts, env, kind, target=None):
+        # grads[0] -= E  on a list of per-network gradient vectors: the head is replaced, the other entries are untouched
+        if stmts and isinstance(stmts[0], ast.AugAssign) and isinstance(stmts[0].op, ast.Sub) and isinstance(stmts[0].target, ast.Subscript) \
+                and isinstance(stmts[0].target.value, ast.Name) and ast.unparse(stmts[0].target.slice) == "0" \
+                and isinstance(env.get(stmts[0].target.value.id), tuple) and env[stmts[0].target.value.id][1] == "LV":
+            name = stmts[0].target.value.id
+            e, t = self.expr(stmts[0].value, env)
+            if t != "V":
+                raise Untranslatable("in-place subtraction of a %s from a gradient vector" % t)
+            new = "(match %s with [] => [] | g0_ :: rest_ => vsub ROps g0_ %s :: rest_ end)" % (env[name][0], e)
+            return self.bind(env, name, new, "LV", lambda e2: self.block(stmts[1:], e2, kind, target))
+        return Tr.block(self, stmts, env, kind, target)
+
     MAPS = {"exp": "exp", "sqrt": "sqrt", "cos": "cos", "sin": "sin", "sigmoid": "(sigmoid ROps)", "sigmoid_": "(sigmoid ROps)",
             "exp_": "exp", "sqrt_": "sqrt", "neg": "Ropp", "log": "ln"}
 
